@@ -69,6 +69,7 @@ def run(ctx):
         ctx.add_tlc("MC_DataImpl_C18OneL3 (all sequences <= 3, 1 dataset)", res, {"MaxLen": 3})
         _replay_cfg(ctx, "MC_DataImpl_C18EmitL2", limit=6000, record=1000)
         _replay_cfg(ctx, "MC_DataImpl_C18EmitL3", limit=3000, record=500)
+        _replay_cfg(ctx, "MC_DataImpl_C18EmitMix", limit=4000, record=500)
     else:
         res = tlc.run("MC_DataImpl", "MC_DataImpl_C18QuickFixed", tag=ctx.pid + "_model", timeout_s=900)
         ctx.add_tlc("MC_DataImpl_C18QuickFixed (all sequences <= 3, 16 datasets)", res, {"MaxLen": 3})
